@@ -1799,6 +1799,92 @@ Section Format.
       rewrite (eflag_end (split_nl t) SCode true (split_nonempty t)). rewrite join_split. rewrite Ee.
       rewrite RDL_snoc_empty by discriminate. symmetry. apply strip_T. exact HL.
   Qed.
+  (* ---- convergence of the format action ---- *)
+  Lemma blank_spf : forall l, forallb is_blank l = true -> forallb spf (cpairs l) = true.
+  Proof.
+    induction l as [|c l IH]; intro H; [reflexivity|]. cbn in H. apply andb_prop in H. destruct H as [H1 H2].
+    cbn [cpairs map forallb fst]. fold (cpairs l). rewrite (IH H2). rewrite andb_true_r.
+    unfold Lint.spacec. unfold is_blank, is_sp, is_tab in H1. apply orb_prop in H1.
+    destruct H1 as [H1|H1]; apply N.eqb_eq in H1; rewrite H1; assumption.
+  Qed.
+
+  Lemma trim_r_head : forall {A} (q : A -> bool) c t x r, trim_r q (c :: t) = x :: r -> x = c.
+  Proof.
+    intros A q c t x r H. rewrite trim_r_cons in H. destruct (trim_r q t); [destruct (q c); [discriminate H|]|]; inversion H; reflexivity.
+  Qed.
+
+  Lemma trim_code_head : forall l p tr, trim_code l = p :: tr -> spacec (fst p) = false.
+  Proof.
+    intros l p tr H. unfold Lint.trim_code in H. change (trim_l (fun p : ch * N => spacec (fst p)) l) with (trim_l spf l) in H. destruct (trim_l spf l) as [|c t] eqn:E; [cbn in H; discriminate H|].
+    pose proof (trim_l_head _ _ _ _ E) as Hc. apply trim_r_head in H. subst. exact Hc.
+  Qed.
+
+  Lemma trim_code_indent : forall ind l p tr, forallb is_blank ind = true -> trim_code l = p :: tr ->
+    trim_code (cpairs ind ++ p :: tr) = p :: tr.
+  Proof.
+    intros ind l p tr Hi H. unfold Lint.trim_code. rewrite trim_l_app_all by (apply blank_spf; exact Hi).
+    rewrite trim_l_stop by (eapply trim_code_head; exact H).
+    assert (X : trim_r tspace (p :: tr) = p :: tr) by (rewrite <- H; unfold Lint.trim_code; apply trim_r_idem). exact X.
+  Qed.
+
+  Lemma flines_idem : forall ind ls cur, forallb is_blank ind = true -> forallb is_blank cur = true ->
+    flines ind cur (flines ind cur ls) = flines ind cur ls.
+  Proof.
+    intros ind. induction ls as [|[flag l] r IH]; intros cur Hi Hc; [reflexivity|]. cbn [flines]. destruct flag.
+    - destruct (trim_code l) as [|p tr] eqn:E; [apply IH; assumption|].
+      set (cur' := fmt_next_indent upper_ascii ind cur (chars (p :: tr))).
+      assert (Hc' : forallb is_blank cur' = true) by (apply fmt_next_blank; assumption).
+      cbn [flines]. rewrite (trim_code_indent cur' l p tr Hc' E). fold cur'. f_equal. apply IH; assumption.
+    - cbn [flines]. f_equal. apply IH; assumption.
+  Qed.
+
+  Lemma flines_snoc_empty : forall ind ls cur, flines ind cur (ls ++ [(true, [])]) = flines ind cur ls.
+  Proof.
+    intros ind. induction ls as [|[flag l] r IH]; intro cur; [reflexivity|]. cbn [app flines]. destruct flag.
+    - destruct (trim_code l); [apply IH|]. f_equal. apply IH.
+    - f_equal. apply IH.
+  Qed.
+
+  Lemma lex_end_snoc_nl : forall l st, end_code (lex_end st l) = true -> end_code (lex_end st (l ++ [nlc])) = true.
+  Proof.
+    intros l st H. destruct (lex_app l st [nlc] lan_nlc) as [_ E]. rewrite E. cbn [lex_end]. rewrite lstep_nlc.
+    destruct (lex_end st l); try discriminate; reflexivity.
+  Qed.
+
+  Theorem format_idempotent : forall tab spaces final t,
+    format_sql is_space upper_ascii tab spaces final (format_sql is_space upper_ascii tab spaces final t)
+    = format_sql is_space upper_ascii tab spaces final t.
+  Proof.
+    intros tab spaces final t. unfold format_sql at 2 3.
+    set (ind := if spaces then repeat spc tab else [asc 9]).
+    assert (Hi : forallb is_blank ind = true).
+    { unfold ind. destruct spaces; [|reflexivity]. induction tab as [|n IH]; [reflexivity|cbn; exact IH]. }
+    rewrite fmt_lines_flines. rewrite (clines_thread t).
+    destruct (thread_flines ind (split_nl t) SCode true [] Hi eq_refl (fun _ => eq_refl) (split_no_nl t)) as (R1 & R2 & R3).
+    set (L := flines ind [] (thread SCode true (split_nl t))) in *.
+    set (lines := map (fun fl => chars (snd fl)) L) in *.
+    assert (Ht : eflag SCode true (split_nl t) = end_code (lex_end SCode t)).
+    { rewrite (eflag_end (split_nl t) SCode true (split_nonempty t)). rewrite join_split. reflexivity. }
+    assert (Lidem : flines ind [] L = L) by (apply flines_idem; [exact Hi|reflexivity]).
+    destruct L as [|fl0 L0] eqn:EL.
+    - (* nothing is left *)
+      unfold lines in *. cbn [map] in *. cbn [eflag] in R3. rewrite Ht in R3. rewrite <- R3.
+      cbn [join_nl ends_nl rev negb andb app]. rewrite andb_true_r.
+      destruct final; unfold format_sql; reflexivity.
+    - assert (Hne : lines <> []) by (unfold lines; discriminate).
+      assert (Cf : clines (join_nl lines) = fl0 :: L0) by (rewrite clines_join by assumption; exact R1).
+      assert (Ef : end_code (lex_end SCode (join_nl lines)) = end_code (lex_end SCode t)).
+      { rewrite <- (eflag_end lines SCode true Hne). rewrite R3. exact Ht. }
+      destruct (final && negb (ends_nl (join_nl lines)) && end_code (lex_end SCode t)) eqn:Ec.
+      + apply andb_prop in Ec. destruct Ec as [Ec Ee]. apply andb_prop in Ec. destruct Ec as [E1 E2].
+        assert (Cn : clines (join_nl lines ++ [nlc]) = (fl0 :: L0) ++ [(true, [])]).
+        { rewrite <- (join_snoc_empty lines Hne).
+          rewrite clines_join by (try apply Forall_app_nonl; try assumption; destruct lines; discriminate).
+          rewrite thread_snoc_empty. rewrite R1. rewrite R3. rewrite Ht. rewrite Ee. reflexivity. }
+        unfold format_sql. fold ind. rewrite Cn. rewrite fmt_lines_flines. rewrite flines_snoc_empty. rewrite Lidem.
+        fold lines. rewrite E1, E2. rewrite lex_end_snoc_nl by (rewrite Ef; exact Ee). reflexivity.
+      + unfold format_sql. fold ind. rewrite Cf. rewrite fmt_lines_flines. rewrite Lidem. fold lines. rewrite Ef. rewrite Ec. reflexivity.
+  Qed.
 End Format.
 
 (* ------------------------------------------------------------------------------------------------ *)
